@@ -326,6 +326,14 @@ class Ctx:
         })
         if extra_cov:
             cov.update(extra_cov)
+        # one line per LISTED finding of this property: those this run's sample hit (with counts and an example), and those it
+        # did not hit (said so; the recorded example is in known_findings.json).  Nothing is ever added to the file here.
+        if not self.violations or True:
+            listed = [f for f in known_findings().get("findings", []) if f.get("property") == self.pid]
+            for f in listed:
+                if not any(k.startswith(f["id"]) or (f["id"] in k.split(":")[0]) for k in self.known_lines):
+                    self.known_lines.append("%s: listed finding, not hit by this run's sample (seed %s, tier %s); recorded example: %s" % (
+                        f["id"], self.seed, self.tier, " ".join(f.get("text", "").split())[-260:]))
         ev = {"property_id": self.pid, "tier": self.tier, "seed": self.seed, "level": level,
               "coverage": cov, "assumptions": self.assumptions, "wall_s": round(time.time() - self.t0, 2),
               "violations": len(self.violations), "known_findings_reported": self.known_lines,
